@@ -398,6 +398,52 @@ pub fn run_c11(run: &Run) {
             run.add_counts(0, st.1, st.0, st.0);
         }
     }
+    // statements that SHARE a condition: five statements, the first three with self-referential ternary conditions, the
+    // last two with one and the same condition over the first three - the place where a memo keyed by the condition's
+    // handle alone (without the statement it is asked for) collides. The counting searches one after the other in both
+    // orders, three calls deep, on one object vs. fresh objects.
+    {
+        let shared: Vec<Fm> = {
+            use crate::oracle::Fm as F;
+            let a = |i| F::Atom(i);
+            vec![a(0), F::not(a(0)), F::bin(4, F::Top, a(0)), F::bin(0, a(0), a(1)), F::bin(1, a(1), F::not(a(2))), F::bin(3, a(0), a(2)), F::bin(2, a(2), a(1)), F::bin(4, a(1), a(2))]
+        };
+        let nsh = shared.len() as u64;
+        let total = 12u64.pow(3) * nsh;
+        let class = 1u64;
+        let seqs: [&[usize]; 4] = [&[5, 4], &[4, 5], &[5, 4, 5], &[4, 5, 4]];
+        let res = run.par_family(
+            &format!("statements sharing a condition: {} ADFs with 5 statements (12^3 ternary conditions x {} shared conditions{}) x 4 orders of the two counting searches", total / class, nsh, if quick { ", one class mod 2" } else { "" }),
+            total / class,
+            || (0u64, 0u64),
+            |st, k| {
+                let k = k * class + run.seed % class;
+                let sh = (k % nsh) as usize;
+                let mut idx = k / nsh;
+                let mut conds: Vec<Fm> = vec![];
+                for i in 0..3 {
+                    conds.push(crate::mid::tern_cond((idx % 12) as usize, i, 5));
+                    idx /= 12;
+                }
+                conds.push(shared[sh].clone());
+                conds.push(shared[sh].clone());
+                let labels: Vec<String> = (0..5).map(|i| format!("t{}", i)).collect();
+                let text = crate::large::LargeAdf { labels: labels.clone(), written: labels, conds, shape: "twins" }.text(None, ("", "", ""));
+                let mut fresh: Vec<Option<Norm>> = vec![None; CALLS_EXT];
+                for seq in seqs {
+                    st.0 += 1;
+                    st.1 += seq.len() as u64;
+                    for (kind, msg) in seq_case_n(&text, 5, false, seq, &mut fresh, false) {
+                        run.violation(&kind, format!("{} on {}", msg.chars().take(500).collect::<String>(), text), json!({"type": "call_seq_mid", "text": text, "n": 5, "bridged": false, "calls": seq}));
+                    }
+                }
+            },
+            &|k| json!({"type": "twins", "index": k}),
+        );
+        for st in res {
+            run.add_counts(0, st.1, st.0, st.0);
+        }
+    }
     // the verbosity of the process is not part of the input: the seeded Rand search must yield the same models in the same
     // order whether or not a logger accepts TRACE records (sequential: the log level is a global of the process)
     {
